@@ -16,6 +16,10 @@ use crate::Params;
 pub struct C05 {
     pub rep: Report,
     pub case_seed: u64,
+    /// (case, height) of the block being built and what its accepted transactions have paid above their minimum so far:
+    /// "the block's tips" are those, nothing an earlier block left behind
+    pub block: (u64, u64),
+    pub block_tips: BigUint,
 }
 
 fn mclass(m: u128) -> &'static str {
@@ -35,6 +39,8 @@ impl Monitor for C05 {
         let mult = ev.pre.snap.fee_multiplier;
         if mult > (1u128 << 100) {
             self.rep.count("excluded: multiplier above 2^100 (saturation regime)");
+            self.block = (self.case_seed, ev.pre.snap.height.0);
+            self.block_tips = BigUint::from(ev.post.snap.tips);
             return;
         }
         self.rep.eval();
@@ -47,6 +53,17 @@ impl Monitor for C05 {
         }
         if mult > 0 {
             self.rep.nontrivial(fnv(&fp));
+        }
+        if self.block != (self.case_seed, ev.pre.snap.height.0) {
+            self.block = (self.case_seed, ev.pre.snap.height.0);
+            self.block_tips = BigUint::zero();
+        }
+        if BigUint::from(ev.pre.snap.tips) != self.block_tips && self.block_tips <= BigUint::from(u128::MAX) {
+            let mut wj = wit.clone();
+            wj["tips_in_state"] = json!(ev.pre.snap.tips.to_string());
+            wj["paid_above_minimum_in_this_block_so_far"] = json!(self.block_tips.to_string());
+            self.rep.violate("C05|tips-not-the-blocks-own|apply_tx_batch|before-batch", "the pending tips differ from what this block's accepted transactions have paid above their minimum fees".into(), wj);
+            self.block_tips = BigUint::from(ev.pre.snap.tips);
         }
         match &ev.result {
             Ok(Ok(())) => {
@@ -66,8 +83,10 @@ impl Monitor for C05 {
                 let exp_tips = BigUint::from(ev.pre.snap.tips) + (&sum_fee - &sum_min);
                 if exp_pool > BigUint::from(u128::MAX) || exp_tips > BigUint::from(u128::MAX) {
                     self.rep.count("excluded: fee pool or tips would saturate");
+                    self.block_tips = BigUint::from(ev.post.snap.tips);
                     return;
                 }
+                self.block_tips += &sum_fee - &sum_min;
                 for (t, m) in ev.txs.iter().zip(mins.iter()) {
                     let f = BigUint::from(t.fee.0);
                     if f == *m && !m.is_zero() {
@@ -101,6 +120,21 @@ impl Monitor for C05 {
             return;
         }
         self.rep.eval();
+        // what the block hands to its proposer are the tips of its own transactions
+        if self.block != (self.case_seed, ev.height) {
+            self.block = (self.case_seed, ev.height);
+            self.block_tips = BigUint::zero();
+        }
+        if BigUint::from(ev.phases[0].snap.tips) != self.block_tips && self.block_tips <= BigUint::from(u128::MAX) && ev.phases[0].snap.fee_multiplier <= (1u128 << 100) {
+            self.rep.violate(
+                &format!("C05|tips-not-the-blocks-own|seal|{}", if self.block_tips.is_zero() { "block-without-tips" } else { "block-with-tips" }),
+                format!("sealing starts with {} pending tips, but the transactions of this block paid {} above their minimum fees", ev.phases[0].snap.tips, self.block_tips),
+                json!({"case_seed": self.case_seed, "origin": w.origin, "height": ev.height, "action": format!("{:?}", ev.action), "tips_at_seal_begin": ev.phases[0].snap.tips.to_string(), "paid_above_minimum_in_this_block": self.block_tips.to_string()}),
+            );
+        }
+        if !self.block_tips.is_zero() && ev.action.is_none() {
+            self.rep.count("blocks with tips sealed without an action");
+        }
         let pre = &ev.phases[6];
         let post = &ev.phases[7];
         let rid = CoinID::proposer_reward(BlockHeight(ev.height));
@@ -212,13 +246,14 @@ pub fn run(p: &Params) -> Report {
     let total = p.n(1000, 25000);
     let mine = p.share(total);
     let mut rng = Rng::new(p.shard_seed() ^ 0xC05);
-    let mut mon = C05 { rep: Report::new("C05"), case_seed: 0 };
-    mon.rep.rule = "cases = (a) every batch and sealed block of random histories at multipliers {0,1,2,100,10^6,2^40,2^64,2^100}; (b) threshold probes: a valid transaction (0-8 inputs, 1-60 outputs, extra covenants of every weight class incl. heavy loops, loops whose weight exceeds 2^128 and undecodable bytes) is re-targeted by fixpoint to pay exactly min-1, min, min+k (and once left with the fee it was generated with) and applied to a clone. Oracle: reference weight (serialized size + reference covenant weights + 1000/output - 1000/input, floored at 0) and min = floor(weight*multiplier/65536) in big integers; accepted => fee >= min; fee < min => rejected; fee pool grows by exactly sum(min) and tips by sum(fee-min); with an action the reward coin is pool>>16 + tips to the destination at the current height and pool/tips are debited by exactly that; without an action nothing moves. Non-trivial = multiplier > 0 (batches), tips > 0 (rewards), every threshold probe; distinct by members/values".into();
+    let mut mon = C05 { rep: Report::new("C05"), case_seed: 0, block: (0, 0), block_tips: BigUint::zero() };
+    mon.rep.rule = "cases = (a) every batch and sealed block of random histories at multipliers {0,1,2,100,10^6,2^40,2^64,2^100}; (b) threshold probes: a valid transaction (0-8 inputs, 1-60 outputs, extra covenants of every weight class incl. heavy loops, loops whose weight exceeds 2^128 and undecodable bytes) is re-targeted by fixpoint to pay exactly min-1, min, min+k (and once left with the fee it was generated with) and applied to a clone. Oracle: reference weight (serialized size + reference covenant weights + 1000/output - 1000/input, floored at 0) and min = floor(weight*multiplier/65536) in big integers; accepted => fee >= min; fee < min => rejected; fee pool grows by exactly sum(min) and tips by sum(fee-min); the pending tips before every batch and at the start of sealing are exactly what this block's accepted transactions paid above their minimum (nothing carried over from an earlier block); with an action the reward coin is pool>>16 + tips to the destination at the current height and pool/tips are debited by exactly that; without an action nothing moves. Non-trivial = multiplier > 0 (batches), tips > 0 (rewards), every threshold probe; distinct by members/values".into();
     if p.only_case.is_none() {
         mon.rep.require("threshold probes: min-1 rejected", p.n(150, 3000));
         mon.rep.require("threshold probes: exactly min accepted", p.n(150, 3000));
         mon.rep.require("threshold probes: padded variant below its own minimum", p.n(100, 2000));
         mon.rep.require("blocks sealed with action", p.n(300, 6000));
+        mon.rep.require("blocks with tips sealed without an action", p.n(100, 2000));
     }
     for case in 0..mine {
         let case_seed = rng.next();
